@@ -54,6 +54,28 @@ def fl_round(nd):
     return _round_ufs[nd]
 
 
+_flops = {}
+
+
+def flop(tag, args):
+    """The double produced by float operation `tag` on the given operands, as a term: float
+    arithmetic is deterministic, so equal operands give the same result (congruence)."""
+    key = (tag, tuple(a.sort().name() for a in args))
+    if key not in _flops:
+        _flops[key] = z3.Function('fl_' + tag, *([a.sort() for a in args] + [R]))
+    return _flops[key](*args)
+
+
+_exacts = {}
+
+
+def exact_fn(tag, args, sort=None):
+    key = (tag, tuple(a.sort().name() for a in args))
+    if key not in _exacts:
+        _exacts[key] = z3.Function('ex_' + tag, *([a.sort() for a in args] + [sort if sort is not None else R]))
+    return _exacts[key](*args)
+
+
 def is_num(t):
     return z3.is_rational_value(t) or z3.is_int_value(t) or z3.is_algebraic_value(t)
 
@@ -98,6 +120,7 @@ class FPLog(object):
         self.facts = []        # definitional facts (assumed)
         self.alias = {}        # id of an i2f result -> ToReal(n)
         self.assume_normal = False
+        self.mono = []         # (tag, argument, result) of monotone exact functions (round, ceil, floor, int)
 
     def copy(self):
         c = FPLog()
@@ -106,6 +129,7 @@ class FPLog(object):
         c.facts = list(self.facts)
         c.alias = dict(self.alias)
         c.assume_normal = self.assume_normal
+        c.mono = list(self.mono)
         return c
 
     def landmark(self, k):
@@ -136,8 +160,13 @@ class FPLog(object):
 
     def rounded(self, e, tag='fl', args=()):
         """fresh r = fl(e)."""
-        r = z3.Real(fresh_name('f' + tag))
+        r = flop(tag, list(args)) if args else z3.Real(fresh_name('f' + tag))
+        for op in self.ops:
+            if op.r.eq(r):
+                self.last_op = op
+                return r                      # same operation on the same operands: same double
         self.ops.append(Op(r, e, tag, list(args)))
+        self.last_op = self.ops[-1]
         self.facts += [z3.Implies(e >= 0, r >= 0), z3.Implies(e <= 0, r <= 0),
                        z3.Implies(z3.And(e <= B33, e >= -B33),
                                   z3.And(r - e <= DELTA, e - r <= DELTA)),
@@ -156,18 +185,29 @@ class FPLog(object):
     def exact(self, e, tag, args):
         """An operation whose result is exact: recorded (so that contracts can find it)."""
         self.ops.append(Op(e, e, tag, list(args)))
+        self.last_op = self.ops[-1]
         return e
 
     def landmark_facts(self):
         out = []
-        for op in self.ops:
-            if op.r is op.e:
-                continue
+        rounded = [op for op in self.ops if op.r is not op.e]
+        for op in rounded:
             for k in self.ints:
                 kr = z3.ToReal(k)
                 ok = z3.And(kr <= B53, kr >= -B53)
                 out.append(z3.Implies(z3.And(ok, op.e <= kr), op.r <= kr))
                 out.append(z3.Implies(z3.And(ok, op.e >= kr), op.r >= kr))
+        # rounding is monotone: pairwise facts between operations of the same kind
+        for i, p in enumerate(rounded):
+            for q in rounded[i + 1:]:
+                if p.tag == q.tag:
+                    out.append(z3.Implies(p.e <= q.e, p.r <= q.r))
+                    out.append(z3.Implies(q.e <= p.e, q.r <= p.r))
+        for i, (tg, x, y) in enumerate(self.mono):
+            for (tg2, x2, y2) in self.mono[i + 1:]:
+                if tg == tg2:
+                    out.append(z3.Implies(x <= x2, y <= y2))
+                    out.append(z3.Implies(x2 <= x, y2 <= y))
         return out
 
     # ---- operations; each returns (result, [safety obligations]) -------------
@@ -208,7 +248,7 @@ class FPLog(object):
         if is_num(bs) and not (bs.numerator_as_long() == 0):
             e = a / b
             return self.rounded(e, 'div', [a, b]), [('float-no-overflow', z3.And(e < OVF, e > -OVF))]
-        q = z3.Real(fresh_name('quot'))
+        q = exact_fn('quot', [a, b])
         # q is the exact quotient: q * b = a  (only meaningful when b != 0)
         self.facts.append(z3.Implies(b != 0, exact_mul(q, b) == a))
         self.facts.append(z3.Implies(z3.And(b > 0, a >= 0), q >= 0))
@@ -220,13 +260,13 @@ class FPLog(object):
                                                 ('float-no-overflow', z3.And(q < OVF, q > -OVF))]
 
     def sqrt(self, a):
-        s = z3.Real(fresh_name('sqrt'))
+        s = exact_fn('sqrt', [a])
         self.facts += [s >= 0, z3.Implies(a >= 0, exact_mul(s, s) == a), z3.Implies(a > 0, s > 0)]
         return self.rounded(s, 'sqrt', [a]), [('sqrt-domain', a >= 0)]
 
     def round_nd(self, x, nd):
         p = z3.RealVal(10 ** nd)
-        Rn = z3.Int(fresh_name('R%d' % nd))
+        Rn = exact_fn('R%d' % nd, [x], z3.IntSort())
         self.facts += [p * x - z3.ToReal(Rn) <= z3.RealVal('1/2'),
                        z3.ToReal(Rn) - p * x <= z3.RealVal('1/2')]
         e = z3.ToReal(Rn) / p
@@ -236,27 +276,30 @@ class FPLog(object):
 
     def round0(self, x):
         """round(x) with one argument -> int, nearest, ties to even."""
-        n = z3.Int(fresh_name('rnd'))
+        n = exact_fn('rnd', [x], z3.IntSort())
         self.facts += [x - z3.ToReal(n) <= z3.RealVal('1/2'),
                        z3.ToReal(n) - x <= z3.RealVal('1/2')]
         self.landmark(n)
-        self.ops.append(Op(z3.ToReal(n), z3.ToReal(n), 'round0', [x]))
+        self.mono.append(('round0', x, n))
         return n, []
 
     def ceil(self, x):
-        c = z3.Int(fresh_name('ceil'))
+        c = exact_fn('ceil', [x], z3.IntSort())
+        self.mono.append(('ceil', x, c))
         self.facts += [z3.ToReal(c) >= x, z3.ToReal(c) - 1 < x]
         self.landmark(c)
         return c, []
 
     def floor(self, x):
-        c = z3.Int(fresh_name('floor'))
+        c = exact_fn('floor', [x], z3.IntSort())
+        self.mono.append(('floor', x, c))
         self.facts += [z3.ToReal(c) <= x, z3.ToReal(c) + 1 > x]
         self.landmark(c)
         return c, []
 
     def trunc(self, x):
-        c = z3.Int(fresh_name('trunc'))
+        c = exact_fn('trunc', [x], z3.IntSort())
+        self.mono.append(('trunc', x, c))
         self.facts += [z3.Implies(x >= 0, z3.And(z3.ToReal(c) <= x, z3.ToReal(c) + 1 > x)),
                        z3.Implies(x < 0, z3.And(z3.ToReal(c) >= x, z3.ToReal(c) - 1 < x))]
         self.landmark(c)
